@@ -169,6 +169,8 @@ def _promote_body(col, nullable_none, form, vi, wi):
         vals = [x]; kinds = [xk]; key = 0; pos = [0]
     elif form == 'pair-slice':
         vals = [x, y]; kinds = [xk, yk]; key = slice(0, 2); pos = [0, 1]
+    elif form == 'pair-slice-vector':
+        vals = [x, y]; kinds = [xk, yk]; key = slice(0, 2); pos = [0, 1]
     elif form == 'pair-index':
         vals = [x, y]; kinds = [xk, yk]; key = [2, 0]; pos = [2, 0]
     elif form == 'mask-scalar':
@@ -189,6 +191,10 @@ def _promote_body(col, nullable_none, form, vi, wi):
     try:
         if form == 'single': v[key] = x
         elif form == 'mask-scalar': v[key] = x
+        elif form == 'pair-slice-vector':
+            src = Vector(list(vals))
+            if not isinstance(src, Vector) or type(src).__name__ == 'Table': return None
+            v[key] = src
         else: v[key] = list(vals)
         raised = None
     except Exception as e:
@@ -226,13 +232,15 @@ def _promote_body(col, nullable_none, form, vi, wi):
 def h_promote(vi: int, wi: int, nn: bool) -> bool:
     """
     pre: 0 <= vi < len(VALS) and 0 <= wi < len(VALS)
-    pre: H.cfg('form') in ('pair-slice', 'pair-index') or wi == 0
+    pre: H.cfg('form') in ('pair-slice', 'pair-index', 'pair-slice-vector') or wi == 0
     post: _
     """
     H.reset()
     if H.skip(locals()): return True
     R = list(range(len(VALS)))
-    if not H.concrete(_promote_body, H.cfg('col'), True if nn else False, H.cfg('form'), H.pick(R, vi), H.pick(R, wi)): return False
+    r = H.concrete(_promote_body, H.cfg('col'), True if nn else False, H.cfg('form'), H.pick(R, vi), H.pick(R, wi))
+    if r is False: return False
+    if r is None: return True
     return H.ok()
 
 
@@ -481,7 +489,7 @@ def obligations(tier):
                 obs.append(dict(name='assign[n=%d,%s%s,%s]' % (n, key, (',' + tag) if tag else '', val), fn='h_assign_int', config=c, budget=60 if q else 300,
                                 bounds='length %d; elements, written values, indices / slice bounds / mask bits / value length symbolic' % n))
     for col in KINDS:
-        for form in ('single', 'pair-slice', 'pair-index', 'mask-scalar'):
+        for form in ('single', 'pair-slice', 'pair-slice-vector', 'pair-index', 'mask-scalar'):
             obs.append(dict(name='promote[%s,%s]' % (col, form), fn='h_promote', config={'col': col, 'form': form}, budget=60,
                             bounds='column kind %s (with and without an existing None) x written kinds {None,bool,int,float,complex,str,date,datetime}%s'
                             % (col, ' x the same 8 kinds for the second value' if form.startswith('pair') else ''),
